@@ -14,6 +14,12 @@ claimed={
  "C03": dict(level="exploration", engine="venum", design="7 C03", technique=E2.replace("against a reference model","with totality / placement-independence / history-independence oracles"),
    text="For ~80 subjects (every exported message type x header version x dialect, 0x0200 with the five vendor parsers, frame and RTP decoders): all short byte strings over small alphabets, every truncation point of every seed body followed by all short suffixes, every single-byte substitution and structural double substitution, extensions, and all ordered pairs/triples of bodies on one receiver. Each case must not panic, must give the same outcome on an exact-capacity slice and on two differently poisoned larger buffers, must render with String(), and a reused receiver must equal a fresh one.",
    note="Seeds are the valid bodies in the repository's own test files plus harness samples. Finite alphabets; a per-worker watchdog turns a non-terminating parse into a violation."),
+ "C04": dict(level="model_checking", engine="venum", design="7 C04", technique="explicit enumeration of all read partitions of frame streams against the real frame extractor (and the real reader on a virtual socket), compared with a reference deframer",
+   text="All sequences of 1..2 (thorough 3) frames from a 14-frame menu are cut into reads in every way within the bounds (unsegmented, frame by frame, byte by byte, every 1-cut, every 2-cut of streams <= 250 bytes, structural 2-cuts beyond) and played against the real extractor from one re-used 1023-byte buffer; every 1-cut also through the real connection.reader. Count, order, IDs, serials, phones, bodies and raw frames must equal the reference deframer's, each message must appear in the read that carries its closing delimiter, and stay intact afterwards.",
+   note="Extractor reached through the VerifParser accessor (tag verif, overlay). Segmentations beyond the stated cut families are not enumerated."),
+ "C05": dict(level="model_checking", engine="venum", design="7 C05", technique="breadth-first explicit-state search over event histories on the real reassembler, successor = replay on a fresh instance + one event, reference reassembler as oracle",
+   text="Every history up to depth 5 (thorough 6) over packets of two transfers, ordinary messages, impossible package numbers, a foreign packet and an N=1 transfer is applied to the real packageParse (one frame per read, coalesced, every 1-cut for depth <= 3) and, for depth <= 3, to the real connection; a reference reassembler predicts exactly which read delivers which complete message with which body. N=255 transfers in forward, reverse, interleaved and duplicated order.",
+   note="Histories repeating packet 1 of an active transfer are outside the property's precondition and skipped."),
  "C06": dict(level="model_checking", engine="vsched", design="7 C06", technique=E1+" plus exhaustive message histories up to depth 2/3",
    text="The real server (service.New/Run over a virtual listener) is driven with every history of 1..2 (thorough 3) terminal messages over the default IDs/versions/serials and a 65540-message wrap run under the run-to-block schedule, and with representative one- and two-connection histories under all schedules within 2 (thorough 3) deviations; replies, their order, platform serials and callback counts/order are compared with a reference reply table.",
    note="Scheduling points are channel/socket/once/sleep operations; the socket is the vnet byte-stream model; reply table harness/ref/reply.go."),
@@ -35,6 +41,9 @@ claimed={
  "C18": dict(level="model_checking", engine="vsched", design="7 C18", technique=E1+", every explored schedule executed under the Go race runtime with only the program's own happens-before edges visible",
    text="The scenario families of C06/C09/C11/C12/C13 are explored in the -race build with 2 (thorough 3) deviations; token hand-offs are hidden from the race runtime (RaceDisable) and exactly the Go-memory-model edges of channel operations, sync.Once and go statements are re-created, so each schedule is checked for happens-before races although threads never overlap physically. An idiom corpus (race-free idioms silent, seeded races reported) runs first as a self-test.",
    note="The race runtime can miss a race (4 shadow cells, report de-duplication, incidental sync.Pool edges inside fmt), never invent one. Reports without a repository frame, or raised by a runtime helper called from a shim, abort the check as broken."),
+ "C14": dict(level="model_checking", engine="venum", design="7 C14", technique="breadth-first explicit-state search with canonical-state deduplication over packet/time-advance histories on the real reassembler under a virtual clock",
+   text="Histories up to depth 6 (thorough 8) over packets of two transfers, a heartbeat and five time advances, plus every non-empty missing set for N=2..6 x idle times x resupply patterns and N=255 families, run on the real packageParse with a virtual clock; a reference model predicts every 0x8003 (first packet's serial, exactly the missing numbers ascending, at most once per 5 s), every completion and every expiry; representative histories run through the real connection (frame on the socket once, next platform serial).",
+   note="Exactly 5 s / 60 s is not exercised (boundary side unspecified). Virtual clock only."),
  "C17": dict(level="exploration", engine="venum", design="7 C17", technique=E2,
    text="Packets from a reference encoder (all 16 data types x 16 sub-package marks x PT/M/attr menus x payload lengths around 0, 950 and 65535), all sequences of 1..2 (thorough 3) packets from a 29-packet menu and every prefix of them, plus arbitrary short strings, are decoded from the front with a fresh and with a reused Packet and compared field by field with a reference reader; truncations must be classified short/unqualified.",
    note="Trusts harness/ref/rtp.go (JT/T 1078 table 19)."),
